@@ -42,6 +42,8 @@ THEOREMS = [
     "C02_history_edits",
     "C02_history_every_write",
     "C02_editAt_meaning",
+    "C02_levels_once",
+    "C02_levels_fuel",
     "C02_ops_surface",
     "C02_ops_cell",
     "C02_ops_and",
